@@ -635,12 +635,19 @@ FLAG_TABLE = [
     # (caller class, callee classes, parameter name, required value, reason)
     (NS + 'Ellipsoid', (NS + 'AuxLatitude', NS + 'DAuxLatitude'), 'exact', 1,
      'Ellipsoid.hpp: "a wrapper on top of the AuxLatitude class which is called with exact = true"'),
+    # required value 'member:_exact': the argument must be (a read of) the data member _exact of the solver
+    (NS + 'Rhumb', (NS + 'AuxLatitude', NS + 'DAuxLatitude'), 'exact', 'member:_exact',
+     'Rhumb.hpp: the exact flag given to the constructor selects the exact auxiliary-latitude conversions; the default '
+     'argument (false) silently selects the order-6 series'),
+    (NS + 'RhumbLine', (NS + 'AuxLatitude', NS + 'DAuxLatitude'), 'exact', 'member:_exact',
+     'as for Rhumb (RhumbLine uses the flag of the Rhumb object it was created from)'),
 ]
 
 
 def rule_F1(ctx):
-    res = RuleResult('F1', 'documented mode flags: every call from Ellipsoid into AuxLatitude passes exact = true '
-                           '(the series default is only valid for small flattening; Ellipsoid promises the exact forms)')
+    res = RuleResult('F1', 'documented mode flags: every call from Ellipsoid into AuxLatitude passes exact = true, and every '
+                           'call from Rhumb / RhumbLine passes the own _exact flag of the solver (the series default is only valid '
+                           'for small flattening)')
     n = 0
     for caller, callees, pname, want, why in FLAG_TABLE:
         for f in sorted(ctx.lib_fns(), key=lambda x: (x.file, x.line)):
@@ -670,11 +677,25 @@ def rule_F1(ctx):
                             break
                     if an['k'] == 'CXXDefaultArgExpr' and val is None:
                         val = 0
+                if isinstance(want, str) and want.startswith('member:'):
+                    m = want.split(':', 1)[1]
+                    val = 'other'
+                    if j < len(args):
+                        an = f.nodes[args[j]]
+                        if an['k'] == 'CXXDefaultArgExpr':
+                            val = 'the default (false)'
+                        else:
+                            rd = [f.nodes[k] for k in f.walk(args[j]) if f.nodes[k]['k'] == 'MemberExpr']
+                            if any(r.get('m') == m for r in rd):
+                                val = want
+                    else:
+                        val = 'the default (false)'
                 ok = val == want
                 res.ob(ok, {'call': '%s -> %s' % (f.q, ce['q']), 'at': f.loc(i), pname: val} if (not ok or n % 5 == 1) else None)
                 if not ok:
                     res.fail(f.q, '%s(%s)' % (ce['name'], pname), f.loc(i),
                              '%s calls %s with %s = %s, but %s' % (f.q, ce['q'], pname,
                                                                    'the default (false)' if val in (0, None) else val, why))
+    res.analysed['call_sites'] = n
     res.floor('flagged call sites', n, 12)
     return res
